@@ -32,18 +32,18 @@ type thr struct {
 }
 
 type bench struct {
-	p      *Pair
-	ctl    *sched.Controller
-	thrs   []*thr
-	events []Ev
-	nS     int
+	p       *Pair
+	ctl     *sched.Controller
+	thrs    []*thr
+	events  []Ev
+	nS      int
 	spawned int
-	log    []string
-	chunkN map[string]int
+	log     []string
+	chunkN  map[string]int
 }
 
 var senderSeg = map[string][]string{
-	">sc.req.gotActive":                  {"gate", "active"},
+	">sc.req.gotActive":                    {"gate", "active"},
 	"sc.req.gotActive>sc.req.pendingAdded": {"count"},
 	"sc.req.pendingAdded>sc.send.locked":   {"locki"},
 	"sc.send.locked>sc.send.chunk":         {},
@@ -52,9 +52,9 @@ var senderSeg = map[string][]string{
 }
 
 var renewSeg = map[string][]string{
-	">sc.renew.gateLocked":                  {"renstart", "rengate"},
-	"sc.renew.gateLocked>sc.renew.drained":  {"rendrain"},
-	"sc.renew.drained>sc.renew.oldLocked":   {"renlock"},
+	">sc.renew.gateLocked":                   {"renstart", "rengate"},
+	"sc.renew.gateLocked>sc.renew.drained":   {"rendrain"},
+	"sc.renew.drained>sc.renew.oldLocked":    {"renlock"},
 	"sc.renew.oldLocked>sc.req.pendingAdded": {"rencopy"},
 	"sc.req.pendingAdded>sc.send.locked":     {},
 	"sc.send.locked>sc.send.chunk":           {},
@@ -66,7 +66,7 @@ var renewSeg = map[string][]string{
 }
 
 var respSeg = map[string][]string{
-	">sc.resp.gotActive":             {"gate", "active", "count"},
+	">sc.resp.gotActive":               {"gate", "active", "count"},
 	"sc.resp.gotActive>sc.resp.locked": {"locki"},
 	"sc.resp.locked>sc.resp.chunk":     {},
 	"sc.resp.chunk>sc.resp.chunk":      {"chunk"},
@@ -219,23 +219,7 @@ func (b *bench) stepThread(t *thr, maxBody int) string {
 		b.chunkN[t.name] = 1
 		b.ctl.Release(t.name)
 	}
-	deadline := time.Now().Add(60 * time.Millisecond)
-	st := "blocked"
-	time.Sleep(300 * time.Microsecond)
-	for time.Now().Before(deadline) {
-		if b.chunkN[t.name] == 1 && b.ctl.ParkedAt(t.name) != "" {
-			// released from a point: wait until it has left it (ParkedAt is cleared on release) and parked again
-		}
-		if p := b.ctl.ParkedAt(t.name); p != "" {
-			st = p
-			break
-		}
-		if b.ctl.IsDone(t.name) {
-			st = "done"
-			break
-		}
-		time.Sleep(200 * time.Microsecond)
-	}
+	st := b.ctl.WaitSettled(t.name, 5*time.Second)
 	b.observe(t)
 	// spontaneous arrivals of threads that were blocked
 	time.Sleep(2 * time.Millisecond)
@@ -534,7 +518,14 @@ func c11respOne(r *rng.R, name string) error {
 	defer ctl.FreeAll()
 	b := &bench{p: p, ctl: ctl, chunkN: map[string]int{}}
 	sv := uasc.VerifChannel{S: p.Srv.SC()}
-	seqs := sv.SchedInstanceSeqs()
+	// the server installs its instance after it has written the OPN response: the client may be ahead of it
+	var seqs []uint32
+	for i := 0; i < 2000 && len(seqs) == 0; i++ {
+		seqs = sv.SchedInstanceSeqs()
+		if len(seqs) == 0 {
+			time.Sleep(time.Millisecond)
+		}
+	}
 	if len(seqs) == 0 {
 		return fmt.Errorf("server channel has no instance")
 	}
